@@ -296,6 +296,8 @@ def apply(st, ev):
         _model_remove_cb(st, kind)
     elif k == "run":
         probs += _run(st)
+    if not st.broken:
+        probs += _registry_check(st)
     return probs
 
 
@@ -361,6 +363,8 @@ def _run(st):
             cur[1].append(kind)
     if cur is not None and cur[1]:
         groups.append(cur)
+    # does the first group belong to the arrival the run was stopped on (callbacks invoked before any new dispatch)?
+    resumed_group = cont and bool(log) and log[0][0] != "D"
     pos = st.pos if cont else 0
     arriving = not cont
     gi = 0
@@ -372,6 +376,11 @@ def _run(st):
         else:
             need = [x for x in st.pending if x in st.reg.get(a, [])]
         skel = _skel(st, a) + ("" if arriving else ":resumed")
+        if not arriving and not need and gi < len(groups) and groups[gi][0] == a and gi == 0 and resumed_group:
+            st.broken = True
+            return [("callback-invoked-after-removal:%s:%s" % (skel, "+".join(groups[0][1])),
+                     "continue_run() at %#x invoked %r although they had been removed while the run was stopped; log %s; %s" % (
+                         a, groups[0][1], _fmt_log(log), _ctx(st)))]
         if need:
             fired = groups[gi][1] if gi < len(groups) and groups[gi][0] == a else None
             if fired is None:
@@ -446,8 +455,10 @@ def _ctx(st):
 
 
 def invariant(st):
-    if st.broken:
-        return []
+    return []          # everything is checked inside apply(), so that a rebuilt history is marked broken the same way
+
+
+def _registry_check(st):
     probs = []
     name_of = {id(cb): k for k, cb in st.cbs.items()}
     for r, a in sorted(st.P["addrs"].items()):
@@ -474,14 +485,16 @@ def outcome(st, ev):
 # ---------------------------------------------------------------------------------------------- driver
 
 SEED_KINDS = {"cold": [], "self-removing registered": [("add", "MID", "S")], "warm": [("run",)],
-              "stopped": [("add", "MID", "F"), ("run",)]}
+              "stopped": [("add", "MID", "F"), ("run",)],
+              "stopped with a callback pending": [("add", "MID", "F"), ("add", "MID", "A"), ("run",)]}
 QUICK_COMBOS = [("loop", "gcc"), ("jmpmid", "python")]
 ALL_COMBOS = [(p, b) for p in PROG_ORDER for b in BACKENDS]
 # phase -> (menu, depth, [(program, backend, jit_maxline, seed kind)])
 PHASES = {
     "quick": ("small", 2, [(p, b, 50, k) for (p, b) in QUICK_COMBOS for k in ("cold", "self-removing registered", "warm", "stopped")]),
-    "deep": ("small", 3, [(p, b, 50, "cold") for (p, b) in ALL_COMBOS]),
-    "wide": ("wide", 2, [(p, b, 50, k) for (p, b) in ALL_COMBOS for k in ("cold", "self-removing registered", "warm", "stopped")] +
+    "deep": ("small", 3, [(p, b, 50, "cold") for (p, b) in ALL_COMBOS if p != "straight"]),
+    "wide": ("wide", 2, [(p, b, 50, k) for (p, b) in ALL_COMBOS for k in ("cold", "warm", "stopped with a callback pending")] +
+             [(p, "python", 50, "self-removing registered") for p in PROG_ORDER] +
              [(p, "python", 2, k) for p in PROG_ORDER for k in ("cold", "warm")]),
 }
 TIER_PHASES = {"quick": ["quick"], "thorough": ["deep", "wide"]}
